@@ -19,6 +19,8 @@ package xpkg
 import (
 	"compress/gzip"
 	"io"
+
+	"github.com/crossplane/crossplane-runtime/pkg/errors"
 )
 
 var _ io.ReadCloser = &gzipReadCloser{}
@@ -59,9 +61,10 @@ var _ io.ReadCloser = &teeReadCloser{}
 
 // teeReadCloser is a TeeReader that also closes the underlying writer.
 type teeReadCloser struct {
-	w io.WriteCloser
-	r io.ReadCloser
-	t io.Reader
+	w   io.WriteCloser
+	r   io.ReadCloser
+	t   io.Reader
+	err error
 }
 
 // TeeReadCloser constructs a teeReadCloser from the passed reader and writer.
@@ -73,16 +76,41 @@ func TeeReadCloser(r io.ReadCloser, w io.WriteCloser) io.ReadCloser {
 	}
 }
 
-// Read calls the underlying TeeReader Read method.
+// Read calls the underlying TeeReader Read method. An error other than io.EOF
+// is sticky: once reading or writing has failed, every subsequent Read returns
+// the same error. Without this a consumer that drops an error delivered
+// together with data and simply reads again (bufio.Reader.ReadLine does) would
+// see a clean io.EOF after a failed write, i.e. mistake a truncated stream for
+// a complete one - the bytes of the failed write are lost and the reader may
+// have nothing left to read, so nothing would be written, or fail, again.
 func (t *teeReadCloser) Read(b []byte) (int, error) {
-	return t.t.Read(b)
+	if t.err != nil {
+		return 0, t.err
+	}
+	n, err := t.t.Read(b)
+	if err != nil && !errors.Is(err, io.EOF) {
+		t.err = err
+	}
+	return n, err
 }
 
 // Close closes the underlying ReadCloser, then the Writer for the TeeReader.
 func (t *teeReadCloser) Close() error {
 	if err := t.r.Close(); err != nil {
-		_ = t.w.Close()
+		_ = t.closeWriter()
 		return err
+	}
+	return t.closeWriter()
+}
+
+// closeWriter closes the writer. If reading failed and the writer can be closed
+// with an error (an io.PipeWriter can) it is, so that whoever consumes the
+// other end does not mistake what was written so far for the complete stream.
+func (t *teeReadCloser) closeWriter() error {
+	if t.err != nil {
+		if w, ok := t.w.(interface{ CloseWithError(err error) error }); ok {
+			return w.CloseWithError(t.err)
+		}
 	}
 	return t.w.Close()
 }
